@@ -231,7 +231,7 @@ def check_case(ctx, case, V=None):
 
 def run(ctx):
     # warm-up of the JIT-compiled estimators happens on the first case
-    ncase = ctx.n(90, 900)
+    ncase = ctx.n(130, 2000)
     for k in range(ncase):
         case = vario.gen_case(ctx.rng, nmax=38 if ctx.tier == 'quick' else 60)
         check_case(ctx, case)
